@@ -1,4 +1,5 @@
 import Model.Geom
+import Generated.Facts
 /-! C07: transcription of `collection/quadtree` (`quadtree.go`, `node.go`), generic over the rectangle operations of
     `geom` and instantiated with C18's `Geom.Rect Int` (Go `int`, truncating `/2`) and `Geom.Rect Rat` (exact dyadic
     `float64`).  A stored node is an `Item` (identity = `id`, Go's comparable pointer; `rect` = what `Bounds()` returns),
@@ -128,8 +129,12 @@ variable {R P : Type} [L : RectOps R P]
 
 def empty (threshold : Int) : Tree R := ⟨none, [], threshold, 0, 0⟩
 
-/-- `QuadTree.threshold()` (`MinQuadTreeThreshold = 4`, `DefaultQuadTreeThreshold = 64`) -/
-def thr (t : Tree R) : Nat := if t.threshold < 4 then 64 else t.threshold.toNat
+/-- `QuadTree.threshold()`.  The two constants `MinQuadTreeThreshold` (4) and `DefaultQuadTreeThreshold` (64) are not
+    copied: they are read from `quadtree.go` on every run (`Generated/Facts.lean`, written by `go/cmd/factgen`), so the
+    model follows the repository; every theorem holds whatever their values are. -/
+def thr (t : Tree R) : Nat :=
+  if t.threshold < Facts.quadtree_MinQuadTreeThreshold then Facts.quadtree_DefaultQuadTreeThreshold.toNat
+  else t.threshold.toNat
 
 /-- `QuadTree.Size` -/
 def size (t : Tree R) : Int := t.count
